@@ -1,7 +1,7 @@
 #!/bin/bash
 # Detection matrix: every seeded change x every check's quick tier (scratch worktrees, /repo untouched).
 OUT=${MATRIX_OUT:-/tmp/matrix.txt}; : > $OUT
-for d in /verif/seeded/*_m?/; do
+for d in /verif/seeded/${MATRIX_GLOB:-*_m?}/; do
   n=$(basename $d)
   echo "== $n" >> $OUT
   /verif/tools/scratch_check.sh mx$n $d/patch.diff HEAD C03 C04 C05 C06 C10 C11 C13 C14 C15 2>&1 | grep -E "quick:|key=" | cut -c1-260 >> $OUT
